@@ -76,6 +76,11 @@ func (s *MergeExp) HasRef() bool {
 	if s.ForkNode != nil {
 		return true
 	}
+	if !s.KnownLength() {
+		// The number of elements depends on the mapped call, even if
+		// the value of each of them does not.
+		return true
+	}
 	return s.Value.HasRef()
 }
 
